@@ -4,7 +4,6 @@ package c19
 
 import (
 	"context"
-	"sort"
 	"crypto/md5"
 	"crypto/sha256"
 	"encoding/hex"
@@ -12,6 +11,7 @@ import (
 	"math/rand"
 	"os"
 	"path/filepath"
+	"sort"
 	"strings"
 	"sync/atomic"
 	"time"
@@ -88,21 +88,26 @@ func startBroker(kind, pwFile, configDir string, ws bool) (*broker.Broker, *auth
 
 // Attempt is one CONNECT of the matrix.
 type Attempt struct {
-	V        byte
-	HasUser  bool
-	HasPass  bool
-	User     string
-	Pass     string `json:"-"`
-	PassDesc string
-	Method   bool // v5 AuthMethod present
-	AuthData bool
-	Will     bool
-	Clean    bool
-	WS       bool
+	V           byte
+	HasUser     bool
+	HasPass     bool
+	User        string
+	Pass        string `json:"-"`
+	PassDesc    string
+	Method      bool // v5 AuthMethod present
+	MethodEmpty bool `json:",omitempty"` // ... with a zero-length value
+	AuthData    bool
+	Will        bool
+	Clean       bool
+	WS          bool
 }
 
 func (a Attempt) sigPart() string {
-	return fmt.Sprintf("v=%d:user=%v:pass=%v:%s:method=%v", a.V, a.HasUser, a.HasPass, a.PassDesc, a.Method)
+	m := fmt.Sprint(a.Method)
+	if a.Method && a.MethodEmpty {
+		m = "empty"
+	}
+	return fmt.Sprintf("v=%d:user=%v:pass=%v:%s:method=%s", a.V, a.HasUser, a.HasPass, a.PassDesc, m)
 }
 
 func tryConnect(b *broker.Broker, at Attempt, id string) (accepted bool, err error) {
@@ -132,6 +137,9 @@ func tryConnect(b *broker.Broker, at Attempt, id string) (accepted bool, err err
 	}
 	if at.V == 5 && at.Method {
 		m := "SCRAM-SHA-1"
+		if at.MethodEmpty {
+			m = ""
+		}
 		p.Props = &mqttx.Props{AuthMethod: &m}
 		if at.AuthData {
 			p.Props.AuthData, p.Props.HasAuthData = []byte("data"), true
@@ -201,6 +209,7 @@ func matrix(rng *rand.Rand, accounts map[string]string, kind string, n int, ws b
 		}
 		if at.V == 5 && rng.Intn(5) == 0 {
 			at.Method, at.AuthData = true, rng.Intn(2) == 0
+			at.MethodEmpty = rng.Intn(2) == 0
 		}
 		out = append(out, at)
 	}
